@@ -350,6 +350,14 @@ fn cmd_parse(req: &Value) -> Value {
     Value::Object(out)
 }
 
+fn cmd_expr(req: &Value) -> Value {
+    let src = req.get("src").and_then(|s| s.as_str()).unwrap_or("");
+    match mos_core::parser::parse_expression(src) {
+        Ok(e) => json!({"ok": true, "ast": dump::expr(&e), "lo": e.span.low().as_usize() - 1, "hi": e.span.high().as_usize() - 1}),
+        Err(_) => json!({"ok": false}),
+    }
+}
+
 fn main() {
     std::panic::set_hook(Box::new(|_| {}));
     let stdin = std::io::stdin();
@@ -376,6 +384,7 @@ fn main() {
             "asm" => cmd_asm(&req),
             "format" => cmd_format(&req),
             "parse" => cmd_parse(&req),
+            "expr" => cmd_expr(&req),
             _ => json!({"bad_request": "unknown cmd"}),
         }));
         let reply = match r {
